@@ -9,7 +9,7 @@ from ..run import inst
 PROPERTY = 'C05'
 ASSUMPTIONS = ['weights positive', 'knot vectors clamped with concrete rational knots (object level); additional knots at helper level are symbolic, inside the domain, outside the snap zone of existing knots']
 OUTSIDE = ['densities > 2 (quick) / 3 (thorough)', 'degrees > 3', 'symbolic knot vectors']
-BOUNDS = {'quick': 'curves p<=3 d<=2; surfaces degrees<=2 every direction subset d<=2; volumes degrees<=2 d=1; helper-level knot_list / add_knot_list p<=2',
+BOUNDS = {'quick': 'curves p<=3 d<=2; surfaces degrees<=2 every direction subset d<=2; volumes degrees<=2 d=1; helper-level knot_list / add_knot_list p<=2; shifted knot vectors; refine after a sibling; unsorted helper-level knot lists',
           'thorough': 'curves p<=4 d<=3; surfaces to (3,2); volumes d<=2; helper-level p<=3 with two symbolic additional knots'}
 
 
